@@ -221,6 +221,7 @@ func (c *C12Case) CfgKey() string {
 // change what a proxied request looks like to the harness's upstream.
 var C12OtherOpt = map[string]string{
 	"":               "",
+	"redirect-valid": "redirect=301",
 	"strip":          "strip=/c12-not-a-prefix",
 	"hostdst":        "host=dst",
 	"tlsskip":        "tlsskipverify=true",
@@ -231,7 +232,7 @@ var C12OtherOpt = map[string]string{
 }
 
 // C12OtherValid: the documented, well-formed ones (Access_MC!MCOthersValid)
-var C12OtherValid = map[string]bool{"": true, "strip": true, "hostdst": true, "tlsskip": true}
+var C12OtherValid = map[string]bool{"": true, "redirect-valid": true, "strip": true, "hostdst": true, "tlsskip": true}
 
 // CaseOpts renders all options of the case's target; the other option goes first or last (the option
 // list is a set).
